@@ -283,8 +283,10 @@ static long h_logpos;
 /* a regex compiled while h_next_rx_id is set is registered under that id */
 static char h_next_rx_id[64];
 int __real_regcomp(regex_t *preg, const char *regex, int cflags);
+static char h_last_rx_src[1024];   /* the expression text handed to the last regcomp (C08: what addrealm made of a realm name) */
 int __wrap_regcomp(regex_t *preg, const char *regex, int cflags) {
     int r = __real_regcomp(preg, regex, cflags);
+    snprintf(h_last_rx_src, sizeof(h_last_rx_src), "%s", regex ? regex : "");
     if (!r && h_next_rx_id[0]) { rx_register(preg, "%s", h_next_rx_id); h_next_rx_id[0] = 0; }
     return r;
 }
